@@ -74,6 +74,7 @@ LibraryRpcs == {"GetBook", "CreateBook", "UpdateBook", "DeleteBook", "ListBooks"
    \cup (IF Has("m_paged_legacy") THEN {"ListOld"} ELSE {}) \cup (IF Has("m_kw") THEN {"Import"} ELSE {})
    \cup (IF Has("m_unsafe") THEN {"CreateChannel"} ELSE {}) \cup (IF Has("h_nested_var") THEN {"RenameBook"} ELSE {})
    \cup (IF Has("m_dep_request") THEN {"CheckDep"} ELSE {}) \cup (IF Has("m_raw_operation") THEN {"StartRaw"} ELSE {})
+   \cup (IF Has("f_map") /\ Has("s_flatten") THEN {"LabelBook"} ELSE {})
 Paged == {"ListBooks"} \cup (IF Has("m_paged_map") THEN {"ListById"} ELSE {}) \cup (IF Has("m_paged_legacy") THEN {"ListOld"} ELSE {})
 Lro == (IF Has("m_lro") THEN {"ExportBooks"} ELSE {}) \cup (IF Has("m_lro_empty") THEN {"PurgeBooks"} ELSE {})
 ClientStreaming == (IF Has("m_cstream") THEN {"UploadBooks"} ELSE {}) \cup (IF Has("m_bidi") THEN {"ChatBooks"} ELSE {})
@@ -104,7 +105,7 @@ SnakeOf == [ GetBook |-> "get_book", CreateBook |-> "create_book", UpdateBook |-
              ListBooks |-> "list_books", MoveBook |-> "move_book", WatchBooks |-> "watch_books", UploadBooks |-> "upload_books",
              ChatBooks |-> "chat_books", ExportBooks |-> "export_books", PurgeBooks |-> "purge_books", ListById |-> "list_by_id",
              ListOld |-> "list_old", Import |-> "import_", CreateChannel |-> "create_channel", RenameBook |-> "rename_book",
-             CheckDep |-> "check_dep", StartRaw |-> "start_raw" ]
+             CheckDep |-> "check_dep", StartRaw |-> "start_raw", LabelBook |-> "label_book" ]
 TestKinds == (IF HasT("grpc") THEN {"grpc"} ELSE {}) \cup (IF HasT("grpc") /\ HasAsync THEN {"grpc-async"} ELSE {})
              \cup (IF HasT("rest") THEN {"rest"} ELSE {})
 RequiredTests == { [rpc |-> SnakeOf[r], kind |-> k, pager |-> FALSE] : r \in LibraryRpcs, k \in TestKinds }
